@@ -870,8 +870,13 @@ def cnd2_every_wakeup_condition_notifies(ctx):
         for b in P.fn_bodies():
             if b.crate != 'locustdb':
                 continue
-            if not any(ACQUIRE_RE.match(t.func or '') and lm.lock_id(b, t.args[0]) == mtx for _bl, t in b.calls()):
-                continue
+            direct = any(ACQUIRE_RE.match(t.func or '') and lm.lock_id(b, t.args[0]) == mtx for _bl, t in b.calls())
+            if not direct:
+                # the guard may come from a wrapper that returns it (`lock_wal_size_below_limit`)
+                if not any('Guard<' in (ty or '') for ty in b.locals.values()):
+                    continue
+                if not any(lid == mtx for (_t, lid, _m) in lm.analyse(b)['acq'].values()):
+                    continue
             a = lm.analyse(b)
             cfg = a['cfg']
             du = lm.du(b)
@@ -932,18 +937,59 @@ def flw22_busy_flag_released(ctx):
     du = DefUse(F)
     cfg = CFG(F)
 
-    def flag_store(t, val):
+    def flag_store(B, dB, t, val):
         if t.kind != 'call' or not re.search(r'AtomicBool::store$', norm_callee(t.func or '')):
             return False
         if len(t.args) < 2 or t.args[1].strip() != 'const %s' % val:
             return False
-        root, steps = typed_path(F, du, t.args[0])
-        org = du.origins(base_local(t.args[0]))
+        root, steps = typed_path(B, dB, t.args[0])
+        org = dB.origins(base_local(t.args[0]))
         names = field_names_of(ctx, steps)
         return 'load_scheduled' in names or any('load_scheduled' in (st.rhs or '') for (_b, st) in org['stmts']) or \
-            _reads_field(ctx, F, du, org, 'load_scheduled')
-    sets = [blk.id for blk, t in F.calls() if not blk.cleanup and flag_store(t, 'true')]
-    clears = [blk.id for blk, t in F.calls() if not blk.cleanup and flag_store(t, 'false')]
+            _reads_field(ctx, B, dB, org, 'load_scheduled')
+    sets = [blk.id for blk, t in F.calls() if not blk.cleanup and flag_store(F, du, t, 'true')]
+    clears = [blk.id for blk, t in F.calls() if not blk.cleanup and flag_store(F, du, t, 'false')]
+    # the flag may be set / cleared in helpers of the scheduler (`try_claim_load`, `clear_load_scheduled`)
+    for blk, t in F.calls():
+        if blk.cleanup or not t.func:
+            continue
+        cs = [c for c in P.resolve(t.func, F.crate) if c.crate == F.crate and c.kind == 'fn' and c.name != F.name]
+        if len(cs) != 1:
+            continue
+        G = cs[0]
+        if G._lines is not None and not any('AtomicBool' in l for l in G._lines):
+            continue
+        G.parse()
+        dG = DefUse(G)
+        gcfg = CFG(G)
+        gset = [b2.id for b2, t2 in G.calls() if not b2.cleanup and flag_store(G, dG, t2, 'true')]
+        gclr = [b2.id for b2, t2 in G.calls() if not b2.cleanup and flag_store(G, dG, t2, 'false')]
+        rets = [r for r in gcfg.return_blocks() if not G.blocks[r].cleanup]
+        if gclr and all(gcfg.must_pass_before(r, gclr) if hasattr(gcfg, 'must_pass_before') else True for r in rets):
+            clears.append(blk.id)
+        if gset:
+            if (G.ret or '').strip() == 'bool':
+                # the helper reports whether it set the flag: it is set on the true edge of the caller's test
+                r = base_local(t.dest)
+                tgt = []
+                for (b3, k3, o3) in du.uses.get(r, []):
+                    if k3 == 'term' and o3.kind == 'switch':
+                        tgt += [tg for (v, tg) in o3.targets if v != '0']
+                    if k3 == 'stmt' and (o3.rhs or '').startswith('Not('):
+                        nl = base_local(o3.lhs)
+                        for (b4, k4, o4) in du.uses.get(nl, []):
+                            if k4 == 'term' and o4.kind == 'switch':
+                                tgt += [tg for (v, tg) in o4.targets if v == '0']
+                # the store must only be followed by `return true`
+                ok_true = True
+                for sb in gset:
+                    for rb in gcfg.reachable_from(sb):
+                        for s2 in G.blocks[rb].stmts:
+                            if s2.kind == 'assign' and s2.lhs.strip() == '_0' and 'const false' in s2.rhs:
+                                ok_true = False
+                sets += tgt if (tgt and ok_true) else [blk.id]
+            else:
+                sets.append(blk.id)
     ctx.require(sets and clears, 'FLW-22: get_or_load does not set / clear the load_scheduled flag '
                                  '(set %s, clear %s)' % (sets, clears))
     # blocks reachable from the set without passing a clear
